@@ -12,14 +12,14 @@ contract("usim._primitives.timing.interval",
          suspends=(0, None),
          raises={"ValueError": dict(when="period < 0", suspended=False),
                  # raised exactly when the body run took longer than the period ...
-                 "IntervalExceeded": dict(ensures=["at_iteration_start(loop.time) > at_iteration_start(last_time) + period"])},
+                 "IntervalExceeded": dict(ensures=["loop.time > prev_tick() + period"])},
          # ... otherwise the body is resumed exactly one period after the previous tick (grid start + k*period),
          # receives the current time, and other activities ran in between (also for period 0 / body == period)
          step_ensures=["result == loop.time",
-                       "loop.time == at_iteration_start(last_time) + period",
-                       "at_iteration_start(loop.time) <= at_iteration_start(last_time) + period"],
+                       "loop.time == prev_tick() + period",                 # tick k = tick k-1 + period, tick 0 = start
+                       "step_time() <= prev_tick() + period"],   # no IntervalExceeded: the body was not late
          step_suspends=(1, None),
-         loop_invariants={"while#1": ["loop.activity is me", "period >= 0", "last_time <= loop.time"]},
+         loop_invariants={"while#1": ["loop.activity is me", "period >= 0", "last_time == prev_tick()", "last_time <= loop.time", "step_time() == loop.time"]},
          on_signal=[], on_close=[],
          on_exit=[DEAD_NEW],
          props=["C14", "C20"])
@@ -30,9 +30,10 @@ contract("usim._primitives.timing.delay",
          suspends=(0, None),
          raises={"ValueError": dict(when="period < 0", suspended=False)},
          # every step pauses exactly `period` after the end of the previous body run
-         step_ensures=["result == loop.time", "loop.time == at_iteration_start(loop.time) + period"],
+         step_ensures=["result == loop.time", "loop.time == step_time() + period"],
          step_suspends=(1, None),
-         loop_invariants={"while#1": ["loop.activity is me", "period > 0"], "while#2": ["loop.activity is me", "period == 0"]},
+         loop_invariants={"while#1": ["loop.activity is me", "period > 0", "step_time() == loop.time"],
+                          "while#2": ["loop.activity is me", "period == 0", "step_time() == loop.time"]},
          on_signal=[], on_close=[],
          on_exit=[DEAD_NEW],
          props=["C14", "C20"])
